@@ -65,6 +65,13 @@ def run_model(ctx, key, pkg, nsets, three_hop):
                 if three_hop:
                     hops.append((a, "bin"))
                 chain(ctx, m, proto, vals, f0, hops, "corpus %s/%s set %d" % (key, proto.name, k), {"key": key, "set": k})
+            # the C++ writer fed through its batch overloads with empty batches in between (a producer that flushes "once more" at the end); what it wrote is
+            # read by Python and must still be the same stream as what Python writes for these values
+            nstreams = sum(1 for _, t in proto.steps if isinstance(c.fq(t), S))
+            if nstreams:
+                cppb = rt.CppEndpoint(m, "plain", bufs=[3] * nstreams, empty_batches=True)
+                chain(ctx, m, proto, vals_bin, "bin", [(cppb, "bin"), (py, "bin")], "corpus %s/%s set %d (C++ writer with empty batches)" % (key, proto.name, k), {"key": key, "set": k})
+                chain(ctx, m, proto, vals_js, "bin", [(cppb, "bin"), (py, "ndjson")], "corpus %s/%s set %d (C++ writer with empty batches)" % (key, proto.name, k), {"key": key, "set": k})
     ctx.sample({"model": key, "protocols": [p.name for p in pkg.protocols()]})
     m.close()
 
